@@ -383,8 +383,10 @@ class LocationTable:
             if entry is None:
                 entry = LocationTableEntry(self.mib)
                 self.loc_t[position_vector.gn_addr] = entry
-
-        entry.update_with_shb_packet(position_vector, packet)
+            # get-or-create and update are ONE critical section: a concurrent refresh_table must never see
+            # (and drop) the new entry before it holds its first position vector, and the duplicate check
+            # and the DPL update of two receptions from the same source must not interleave
+            entry.update_with_shb_packet(position_vector, packet)
         self.refresh_table()
 
     def new_guc_packet(
@@ -419,16 +421,17 @@ class LocationTable:
             if is_new_entry:
                 entry = LocationTableEntry(self.mib)
                 self.loc_t[so_pv.gn_addr] = entry
-        assert entry is not None
-        # DPD – SN-based per annex A.2
-        entry.check_duplicate_sn(guc_extended_header.sn)
-        # Update PV
-        entry.update_position_vector(so_pv)
-        # Update PDR
-        entry.update_pdr(so_pv, len(packet) + 8 + 4)
-        # IS_NEIGHBOUR = FALSE only for new entry (NOTE 2: unchanged otherwise)
-        if is_new_entry:
-            entry.is_neighbour = False
+            # updated inside the get-or-create section (see new_shb_packet)
+            assert entry is not None
+            # DPD – SN-based per annex A.2
+            entry.check_duplicate_sn(guc_extended_header.sn)
+            # Update PV
+            entry.update_position_vector(so_pv)
+            # Update PDR
+            entry.update_pdr(so_pv, len(packet) + 8 + 4)
+            # IS_NEIGHBOUR = FALSE only for new entry (NOTE 2: unchanged otherwise)
+            if is_new_entry:
+                entry.is_neighbour = False
         self.refresh_table()
 
     def new_tsb_packet(
@@ -460,8 +463,9 @@ class LocationTable:
             if is_new_entry:
                 entry = LocationTableEntry(self.mib)
                 self.loc_t[tsb_extended_header.so_pv.gn_addr] = entry
-        assert entry is not None
-        entry.update_with_tsb_packet(packet, tsb_extended_header, is_new_entry)
+            # updated inside the get-or-create section (see new_shb_packet)
+            assert entry is not None
+            entry.update_with_tsb_packet(packet, tsb_extended_header, is_new_entry)
         self.refresh_table()
 
     def new_gac_packet(
@@ -498,16 +502,17 @@ class LocationTable:
             if is_new_entry:
                 entry = LocationTableEntry(self.mib)
                 self.loc_t[so_pv.gn_addr] = entry
-        assert entry is not None
-        # DPD – SN-based per annex A.2
-        entry.check_duplicate_sn(gbc_extended_header.sn)
-        # Update PV (step 5a / 6a)
-        entry.update_position_vector(so_pv)
-        # Update PDR (step 5c / 6b)
-        entry.update_pdr(so_pv, len(packet) + 8 + 4)
-        # IS_NEIGHBOUR = FALSE only for new entry (NOTE 1: unchanged otherwise)
-        if is_new_entry:
-            entry.is_neighbour = False
+            # updated inside the get-or-create section (see new_shb_packet)
+            assert entry is not None
+            # DPD – SN-based per annex A.2
+            entry.check_duplicate_sn(gbc_extended_header.sn)
+            # Update PV (step 5a / 6a)
+            entry.update_position_vector(so_pv)
+            # Update PDR (step 5c / 6b)
+            entry.update_pdr(so_pv, len(packet) + 8 + 4)
+            # IS_NEIGHBOUR = FALSE only for new entry (NOTE 1: unchanged otherwise)
+            if is_new_entry:
+                entry.is_neighbour = False
         self.refresh_table()
 
     def new_ls_request_packet(
@@ -542,16 +547,17 @@ class LocationTable:
             if is_new_entry:
                 entry = LocationTableEntry(self.mib)
                 self.loc_t[so_pv.gn_addr] = entry
-        assert entry is not None
-        # DPD – SN-based per annex A.2
-        entry.check_duplicate_sn(ls_request_header.sn)
-        # Step 5a / 6a: update PV(SO)
-        entry.update_position_vector(so_pv)
-        # Step 5c / 6b: update PDR(SO)
-        entry.update_pdr(so_pv, len(packet) + 8 + 4)
-        # Step 5b: IS_NEIGHBOUR = FALSE only for new entry (NOTE: unchanged otherwise)
-        if is_new_entry:
-            entry.is_neighbour = False
+            # updated inside the get-or-create section (see new_shb_packet)
+            assert entry is not None
+            # DPD – SN-based per annex A.2
+            entry.check_duplicate_sn(ls_request_header.sn)
+            # Step 5a / 6a: update PV(SO)
+            entry.update_position_vector(so_pv)
+            # Step 5c / 6b: update PDR(SO)
+            entry.update_pdr(so_pv, len(packet) + 8 + 4)
+            # Step 5b: IS_NEIGHBOUR = FALSE only for new entry (NOTE: unchanged otherwise)
+            if is_new_entry:
+                entry.is_neighbour = False
         self.refresh_table()
 
     def new_ls_reply_packet(
@@ -586,15 +592,16 @@ class LocationTable:
             if is_new_entry:
                 entry = LocationTableEntry(self.mib)
                 self.loc_t[so_pv.gn_addr] = entry
-        assert entry is not None
-        # DPD – SN-based per annex A.2
-        entry.check_duplicate_sn(ls_reply_header.sn)
-        # Step 4: update PV(SO)
-        entry.update_position_vector(so_pv)
-        # Step 5: update PDR(SO)
-        entry.update_pdr(so_pv, len(packet) + 8 + 4)
-        if is_new_entry:
-            entry.is_neighbour = False
+            # updated inside the get-or-create section (see new_shb_packet)
+            assert entry is not None
+            # DPD – SN-based per annex A.2
+            entry.check_duplicate_sn(ls_reply_header.sn)
+            # Step 4: update PV(SO)
+            entry.update_position_vector(so_pv)
+            # Step 5: update PDR(SO)
+            entry.update_pdr(so_pv, len(packet) + 8 + 4)
+            if is_new_entry:
+                entry.is_neighbour = False
         self.refresh_table()
 
     def new_gbc_packet(
@@ -626,8 +633,9 @@ class LocationTable:
             if is_new_entry:
                 entry = LocationTableEntry(self.mib)
                 self.loc_t[gbc_extended_header.so_pv.gn_addr] = entry
-        assert entry is not None
-        entry.update_with_gbc_packet(packet, gbc_extended_header, is_new_entry)
+            # updated inside the get-or-create section (see new_shb_packet)
+            assert entry is not None
+            entry.update_with_gbc_packet(packet, gbc_extended_header, is_new_entry)
         self.refresh_table()
 
     def get_neighbours(self) -> list[LocationTableEntry]:
